@@ -5987,8 +5987,11 @@ class FlowIRConcrete(object):
         return ret
 
     def invalidate_cache_for_component(self, comp_id):
-        self._cache.invalidate_reg_expression(r'component:.*:stage%s:%s' % (
-            comp_id[0], comp_id[1]))
+        # VV: The name of a component is arbitrary text: escape it (a name such as "a+b" would otherwise never match its
+        # own cache entries, and "a(b" would not even compile) and anchor the expression so that it only matches the
+        # entries of this component (re.match is a prefix match)
+        self._cache.invalidate_reg_expression(r'component:.*:stage%s:%s$' % (
+            re.escape(str(comp_id[0])), re.escape(str(comp_id[1]))))
 
     def update_component(self, comp_id, new_flowir):
         # type: (FlowIRComponentId, DictFlowIRComponent) -> None
@@ -6018,7 +6021,7 @@ class FlowIRConcrete(object):
         if return_copy:
             return deep_copy(component)
 
-        self._cache.invalidate_reg_expression(r"component:.*:stage%s:%s" % (comp_id[0], comp_id[1]))
+        self.invalidate_cache_for_component(comp_id)
         return component
 
     def delete_component(self, comp_id, ignore_errors=False):
@@ -6043,9 +6046,7 @@ class FlowIRConcrete(object):
             except KeyError:
                 pass
 
-            self._cache.invalidate_reg_expression(r'component:.*:stage%s:%s' % (
-                comp['stage'], comp['name']
-            ))
+            self.invalidate_cache_for_component((comp['stage'], comp['name']))
         except:
             if ignore_errors is False:
                 raise
